@@ -248,12 +248,14 @@ mod groups {
             self.key_sets.retain(|e| e.group_key_set_id != id);
             let removed = self.key_sets.len() < before;
 
-            self.key_map_remove_by_key_set(id);
-
             // Check if element was actually removed
             if removed {
+                self.key_map_remove_by_key_set(id);
+
                 Ok(())
             } else {
+                // Nothing was removed, so nothing must change: the caller reports
+                // `NotFound` to the peer and does not persist the fabric
                 Err(Error::new(ErrorCode::NotFound))
             }
         }
